@@ -444,7 +444,18 @@ for these seven formats only by the generator/oracle stream. What IS proved is t
 or invented" that the extractor's own loop is responsible for: de-duplication keys, last/first-write-wins, flattening,
 alias / file: / git handling, replace directives. What an entry denotes (`depEntry`, `pkgEntry`, `GoMod.step`) is taken from
 the model — i.e. these are refinement statements "loop = fold of per-entry function", not an independent grammar of aliases
-or of go.mod replace semantics (observed deviations from Go's own semantics — chained replaces — are listed in the check's notes). -/
+or of go.mod replace semantics (observed deviations from Go's own semantics — chained replaces — are listed in the check's notes);
+the theorems that rest on such a per-entry function carry `_model_semantics` in their names (`C03_packagelock*`, `C03_gomod*`).
+`C03_pipfile` (`Pipfile.pinned`) and `C03_pkgslock` (`PackagesLock.listed`: distinct (id, resolved version) PAIRS over all target
+frameworks) have spec-side definitions of their own.
+
+LAYOUT CLAUSES, said plainly: for package-lock.json, composer.lock, Cargo.lock, poetry.lock, Pipfile.lock, packages.lock.json and
+go.mod NOTHING in Lean speaks about key order, white space, indentation, CRLF, a final newline, comments or unrelated fields. Those
+clauses rest on the decoder (encoding/json, BurntSushi/toml, golang.org/x/mod/modfile) — trusted, not modelled — and are
+exercised by the generator/oracle stream only (c03gen writes every such layout; the document the extractor's own decoder makes of it is
+what the Lean side sees). For four of the formats the stream's expected list is computed by the Lean Spec from that document
+(`PackageLock.expected`, `Pipfile.expected`, `PackagesLock.expectedT`, `GoMod.expected`; theorems `C03_*_expected*`: the scan
+reports a permutation of it); for composer / Cargo / poetry the loop is append / map and the expected list is the generator's. -/
 namespace Scalibr.Lockfiles
 open Scalibr.Parsers
 
